@@ -746,6 +746,11 @@ class Shape(object):
                     return True
             return False
 
+        # A nested evaluation must not stop early while severities are being waived: the top-level shape
+        # decides its verdict from the severities of all results this shape passes up.
+        abort_on_first = bool(executor.abort_on_first) and (
+            is_top_level or not (executor.allow_infos or executor.allow_warnings)
+        )
         non_conformant = False
         done_constraints = set()
         run_count = 0
@@ -797,11 +802,11 @@ class Shape(object):
             reports.extend(_reports)
             run_count += 1
             done_constraints.add(constraint_component)
-            if non_conformant and executor.abort_on_first:
+            if non_conformant and abort_on_first:
                 break
         applicable_custom_constraints = self.find_custom_constraints()
         for a in applicable_custom_constraints:
-            if non_conformant and executor.abort_on_first:
+            if non_conformant and abort_on_first:
                 break
             _e_p_copy2 = _evaluation_path[:]
             validator = a.make_validator_for_shape(self)
